@@ -26,7 +26,7 @@ DEFAULT_QV = [False]     # name quotients in order comparisons (set per obligati
 
 
 class Encoder:
-    def __init__(self, roots=(), group=True):
+    def __init__(self, roots=(), group=True, inputs=None):
         self.z = {}          # var name -> z3 const
         self.memo = {}       # uid -> encoding
         self.cons = []       # facts about abstraction variables (asserted)
@@ -37,6 +37,9 @@ class Encoder:
         self.n_groups = 0
         self.keep = []
         self.quotient_vars = DEFAULT_QV[0]
+        self.inputs = inputs
+        self.logatoms = []      # (atom expr, sample values, z3 var)
+        self._samples = None
         self.qmemo = {}
         if group and roots:
             self._group_exps(list(roots))
@@ -205,6 +208,23 @@ class Encoder:
                 lo, hi = _log_box(a.args[0])
                 self.cons += [l >= _rv(lo), l <= _rv(hi)]
             else:
+                # semantic sharing: an earlier log atom that is numerically identical at random
+                # in-bound points is proved equal (side obligation) and its variable reused
+                vec = self._sample(a)
+                shared = None
+                if vec is not None:
+                    for (a2, vec2, l2) in self.logatoms:
+                        if all(abs(x - y) <= 1e-10 * max(abs(x), abs(y), 1e-300) for x, y in zip(vec, vec2)):
+                            shared = (a2, l2)
+                            break
+                if shared is not None:
+                    self.side.append((self.boolean(X.eq(a, shared[0])), 'log atoms equal: %s == %s' % (X.show(a, 3), X.show(shared[0], 3))))
+                    r = (shared[1], None)
+                    self.memo[e.uid] = r
+                    self.keep.append(e)
+                    return r
+                if vec is not None:
+                    self.logatoms.append((a, vec, l))
                 an, ad = self.real(a)
                 sg = _mulo(an, ad)
                 self.side.append((sg > 0, 'log argument > 0: ' + X.show(a, 3)))
@@ -236,6 +256,39 @@ class Encoder:
         self.memo[e.uid] = r
         self.keep.append(e)
         return r
+
+    def _sample(self, a):
+        import math, random
+        if self._samples is None:
+            rnd = random.Random(99)
+            self._samples = []
+            names = {}
+            for k in range(3):
+                self._samples.append({})
+            self._rnd = rnd
+        fv = X.free_vars(a)
+        out = []
+        for env in self._samples:
+            for name, v in fv.items():
+                if name not in env:
+                    lo, hi = None, None
+                    if self.inputs and name in self.inputs:
+                        _, lo, hi = self.inputs[name]
+                    lo = float(lo) if lo is not None else (0.5 if hi is None else float(hi) - 2.0)
+                    hi = float(hi) if hi is not None else lo + 2.0
+                    if v.sort == 'I':
+                        env[name] = self._rnd.randint(int(math.ceil(lo)), int(math.floor(hi)))
+                    elif v.sort == 'B':
+                        env[name] = self._rnd.random() < 0.5
+                    elif lo > 0 and hi / lo > 100:
+                        env[name] = math.exp(self._rnd.uniform(math.log(lo), math.log(hi)))
+                    else:
+                        env[name] = self._rnd.uniform(lo, hi)
+            try:
+                out.append(float(X.ev(a, env, 'float')))
+            except Exception:
+                return None
+        return out
 
     def _asreal(self, e):
         """single z3 Real equal to e (introduces a quotient variable when needed)"""
